@@ -155,5 +155,9 @@ if __name__ == '__main__':
             exp = sys.argv[sys.argv.index('--expect-hex') + 1]
             f = out.split('\t')
             got = f[1] if out.startswith('OK') and len(f) > 1 else ('' if out.startswith('OK') else None)
+            if sys.argv[2].startswith('fs') and got is not None:
+                # a history: the expectation is about the result of its LAST call, `name=OK(payload)`
+                last = got.split(';')[-1]
+                got = (last[last.index('=OK(') + 4:-1] if '=OK(' in last else last).encode('utf-8').hex()
             bad = bad or got is None or got != exp
         sys.exit(1 if bad else 0)
